@@ -18,12 +18,18 @@ def decTInst (s : String) : TInst :=
   | [e, n, fl] => { explicit := decOpt e, nargs := n.toNat!, flat := decStr fl }
   | _ => { explicit := none, nargs := 0, flat := [] }
 
+def decWrap (s : String) : Wrap :=
+  match s.toList with
+  | [a, b, c, d] => ⟨a == '1', b == '1', c == '1', d == '1'⟩
+  | _ => ⟨true, true, false, false⟩
+
 def decFn (s : String) : Fn :=
   match s.splitOn ":" with
-  | [nm, np, nd, sf, ds, ti, ge, hb, ic, ut, ci] =>
+  | [nm, np, nd, sf, ds, ti, ge, hb, ic, ut, ci, wo] =>
     { name := decStr nm, nparams := np.toNat!, ndefaults := nd.toNat!, suffix := decOpt sf,
       dsuffix := decList decStr "+" ds, tinst := decList decTInst "+" ti,
-      generics := decList decOpt "+" ge, hasBuf := hb == "1", isCtor := ic == "1", usesT := ut == "1", cppIf := decOpt ci }
+      generics := decList decOpt "+" ge, hasBuf := hb == "1", isCtor := ic == "1", usesT := ut == "1", cppIf := decOpt ci,
+      wrapOpt := if wo == "N" then none else some (decWrap wo) }
   | _ => { name := [], nparams := 0, ndefaults := 0, suffix := none, dsuffix := [], tinst := [],
            generics := [], hasBuf := false, isCtor := false, usesT := false, cppIf := none }
 
@@ -40,11 +46,6 @@ def decSeg (s : String) : PathSeg :=
 /-- library field: the library name, or `P<prefix>` for an explicit `format: C_prefix`. -/
 def decPrefix (lib : String) : Str :=
   if lib.startsWith "P" then decStr (lib.drop 1).toString else libraryPrefix (decStr lib)
-
-def decWrap (s : String) : Wrap :=
-  match s.toList with
-  | [a, b, c, d] => ⟨a == '1', b == '1', c == '1', d == '1'⟩
-  | _ => ⟨true, true, false, false⟩
 
 def encWrap (w : Wrap) : String :=
   String.ofList ([w.c, w.f, w.py, w.lua].map fun b => if b then '1' else '0')
